@@ -290,7 +290,7 @@ static void build_table()
 		add("VSH_Psi_Component", "component=" + std::to_string(c), (c >= 0 && c <= 2) ? ACCEPT : REJECT, [=]() { return VSH_Psi_Component(c, 2, 1, 3, 2).real(); });
 	}
 	for(double p : {-1.0 - 1e-9, -1.0, -0.999, 0.0, 0.999, 1.0, 1.5})
-		add("Inv_Erf", "p=" + mc::dec(p), (std::fabs(p) < 1.0 || p == 1.0) ? ACCEPT : REJECT, [=]() { return Inv_Erf(p); });
+		add("Inv_Erf", "p=" + mc::dec(p), (std::fabs(p) <= 1.0) ? ACCEPT : REJECT, [=]() { return Inv_Erf(p); });	// the ends +-1 are answered +-10 (documented saturation)
 	// ---- lists, files, utilities ---------------------------------------------------------------------------------------
 	add("Transpose_Lists", "equal_lengths", ACCEPT, []() { return Transpose_Lists(VV{{1, 2, 3}, {4, 5, 6}})[2][1]; });
 	add("Transpose_Lists", "second_shorter", REJECT, []() { return Transpose_Lists(VV{{1, 2, 3}, {4, 5}})[0][0]; });
